@@ -52,6 +52,46 @@ def expectations(bin_name):
     return out
 
 
+def at_expectations(bin_name):
+    """`//! AT `source text with ^`: message` lines: the diagnostic whose text contains `message` must have
+    its primary span start where `^` stands (the text without `^` must occur exactly once in the program)."""
+    path = os.path.join(PROBES, "src", "bin", bin_name + ".rs")
+    lines = open(path).read().split("\n")
+    body = [(k + 1, l) for k, l in enumerate(lines) if not l.startswith("//!")]
+    out = []
+    for l in lines:
+        m = re.match(r"//!\s*AT\s*`(.*)`:\s*(.*\S)\s*$", l)
+        if not m:
+            continue
+        needle, msg = m.group(1), m.group(2)
+        off = needle.find("^")
+        plain = needle.replace("^", "")
+        hits = [(ln, t.find(plain)) for ln, t in body if plain in t]
+        if len(hits) != 1 or off < 0:
+            out.append((needle, msg, None))
+        else:
+            out.append((needle, msg, (hits[0][0], hits[0][1] + off + 1)))
+    return out
+
+
+DIAG = re.compile(r"^error(?:\[E\d+\])?: (.*)\n\s*--> ([^:\n]+):(\d+):(\d+)", re.M)
+
+
+def check_locations(bin_name, log):
+    """returns the list of unmet `AT` expectations"""
+    got = [(m.group(1), int(m.group(3)), int(m.group(4))) for m in DIAG.finditer(log) if m.group(2).endswith(bin_name + ".rs")]
+    bad = []
+    for needle, msg, where in at_expectations(bin_name):
+        if where is None:
+            bad.append("probe is malformed: `%s` must occur exactly once and contain ^" % needle)
+            continue
+        hits = [g for g in got if msg in g[0]]
+        if not any((g[1], g[2]) == where for g in hits):
+            near = ", ".join("%d:%d" % (g[1], g[2]) for g in hits) or "nowhere"
+            bad.append("diagnostic %r is expected at %d:%d (`%s`) but is reported at %s" % (msg[:50], where[0], where[1], needle, near))
+    return bad
+
+
 def build_all():
     """warm build of the dependencies and of every positive probe (setup time)"""
     prepare()
@@ -89,8 +129,12 @@ def run(prop, workdir):
                 missing = [e for e in exp if e not in log]
                 if missing:
                     failures.append((b, "negative probe is rejected, but not with the expected diagnostic %r" % missing[0], src))
-            cov["probes"].append({"bin": b, "kind": "must-not-compile", "expect": exp})
-            cov["cases"] += 1
+                wrong = check_locations(b, log)
+                if wrong:
+                    failures.append((b, "diagnostic not at the offending tokens: " + wrong[0] + (" (+%d more)" % (len(wrong) - 1) if len(wrong) > 1 else ""), src))
+            n_at = len(at_expectations(b))
+            cov["probes"].append({"bin": b, "kind": "must-not-compile", "expect": exp, "located_diagnostics": n_at})
+            cov["cases"] += 1 + n_at
             continue
         if rc != 0:
             logp = os.path.join(workdir, b + ".build.log")
